@@ -242,6 +242,16 @@ func (fr *Frame) havocCall(why string, c *ssa.CallCommon, args []Val, resT types
 		fr.havocReach(a, st)
 	}
 	if c != nil {
+		// a pointer handed over boxed in an interface (f(&x) where f takes `any`) is reachable by the callee too
+		for _, a := range c.Args {
+			if mi, ok := a.(*ssa.MakeInterface); ok {
+				if _, isPtr := mi.X.Type().Underlying().(*types.Pointer); isPtr {
+					fr.havocReach(fr.val(mi.X), st)
+				}
+			}
+		}
+	}
+	if c != nil {
 		if mc, ok := c.Value.(*ssa.MakeClosure); ok {
 			for _, b := range mc.Bindings {
 				fr.havocReach(fr.val(b), st)
@@ -415,6 +425,10 @@ func (fr *Frame) applyContract(callee *ssa.Function, sp *spec.FuncSpec, args []V
 			}
 			fr.logRecv = []Val{args[0]}
 			as = args[1:]
+			if _, isStruct := args[0].T.Underlying().(*types.Struct); isStruct {
+				// a receiver passed by value is part of what the call is given: it is eligible as the event's payload
+				as = args
+			}
 		}
 		fr.logCall(st, pre, key, recv, as, res)
 		fr.logRecv = nil
@@ -1512,6 +1526,26 @@ func (fr *Frame) dynCall(fv Val, c *ssa.CallCommon, args []Val, resT types.Type,
 			pre := st.clone()
 			fr.logCall(st, pre, "dyncall", "", args, nil)
 			return Val{T: resT}
+		}
+	}
+	// a decode callback (yaml.v3 hands `func(interface{}) error` to UnmarshalYAML): called with a pointer to a local, it
+	// is modelled like yaml.Unmarshal - its error and, on success, the decoded value are functions of the callback and of
+	// the target type (assumed: decoding the same node into the same type gives the same result); on error the target may
+	// hold anything
+	if ok && fv.Term != "" && sig.Params().Len() == 1 && sig.Results().Len() == 1 && isErrorType(sig.Results().At(0).Type()) && len(c.Args) == 1 {
+		if mi, isMI := c.Args[0].(*ssa.MakeInterface); isMI {
+			if pt, isPtr := mi.X.Type().Underlying().(*types.Pointer); isPtr {
+				if target := fr.val(mi.X); target.Loc != nil {
+					vc.Assumed["assumed contract: a decode callback func(interface{}) error is a function of the callback and the target type (error and, on success, decoded value)"] = true
+					srt := vc.S.Sort(pt.Elem())
+					en, vn := decodeFuncs(vc, srt)
+					errT := vc.define("decode_err", "Err", fmt.Sprintf("(%s %s)", en, fv.Term))
+					nv := vc.fresh("decode_out", srt)
+					vc.fact(implies(eq(errT, "enil"), eq(nv, fmt.Sprintf("(%s %s)", vn, fv.Term))))
+					vc.store(st, target.Loc, nv)
+					return Val{T: resT, Term: errT}
+				}
+			}
 		}
 	}
 	if !ok || fv.Term == "" || sig.Results().Len() == 0 {
